@@ -132,6 +132,7 @@ type SignOpts struct {
 	CAdES      bool // cms only
 	Receipt    bool // cms only: signed receipt request attribute
 	NoAttr     bool
+	TypedOID   string // cms only: -econtent_type <oid> (a content type other than id-data; the CLI then writes SignedData version 3)
 }
 
 // Name is a short label of the configuration.
@@ -143,7 +144,7 @@ func (o SignOpts) Name() string {
 	for _, f := range []struct {
 		on bool
 		s  string
-	}{{o.NoDetach, "nodetach"}, {o.NoSMIMECap, "nosmimecap"}, {o.NoCerts, "nocerts"}, {o.CAdES, "cades"}, {o.Receipt, "receipt"}, {o.NoAttr, "noattr"}} {
+	}{{o.NoDetach, "nodetach"}, {o.NoSMIMECap, "nosmimecap"}, {o.NoCerts, "nocerts"}, {o.CAdES, "cades"}, {o.Receipt, "receipt"}, {o.NoAttr, "noattr"}, {o.TypedOID != "", "econtent_type"}} {
 		if f.on {
 			n += "-" + f.s
 		}
@@ -169,6 +170,9 @@ func Sign(keyPEM, certPEM, content []byte, o SignOpts) ([]byte, error) {
 	}
 	if o.NoAttr {
 		args = append(args, "-noattr")
+	}
+	if o.TypedOID != "" && o.CMS {
+		args = append(args, "-econtent_type", o.TypedOID)
 	}
 	if o.CMS && o.CAdES {
 		args = append(args, "-cades")
